@@ -835,11 +835,25 @@ def final_stack(ex):
     return None
 
 
+def prefer_constructible(ex):
+    """choose, where the path leaves it open, operand kinds the native replay can construct"""
+    def prefs():
+        out = []
+        for ins in ex.notes["prog"]:
+            for fs in ins.fields.values():
+                for v in fs:
+                    if isinstance(v, VAdt) and v.base() == "CelValue" and not isinstance(v.discr, int):
+                        out.append(z3.And([v.discr != ex.variant_index(v, k) for k in ("TimeStamp", "Duration", "Dyn", "Float", "Bytes")]))
+        return out
+    return prefs
+
+
 def check_vm(res, V):
     ex = res.ex
     scen = vm_scenario(ex)
+    pref = prefer_constructible(ex)
     if res.outcome == "panic":
-        V.check(ex, "the VM returns an error instead of panicking", False, detail=res.msg, scenario=scen)
+        V.check(ex, "the VM returns an error instead of panicking", False, detail=res.msg, scenario=scen, prefer=pref)
         return
     if res.outcome == "bound":
         V.witness("bounded (backward jump loop)")
@@ -862,7 +876,7 @@ def check_vm(res, V):
     try:
         combos = run_reference(ex, ref)
     except RefMismatch as e:
-        V.check(ex, "operations applied by the VM (which, operand order, how often)", False, detail=str(e), scenario=scen)
+        V.check(ex, "operations applied by the VM (which, operand order, how often)", False, detail=str(e), scenario=scen, prefer=pref)
         return
     except RefOutside as e:
         V.witness("outside the reference: " + str(e))
@@ -870,38 +884,38 @@ def check_vm(res, V):
     ret = res.ret
     for assumed, (out, vm) in combos:
         if vm.opos != len(ops):
-            V.check(ex, "no operation beyond the reference's", False, assumed, detail=f"the VM performed {len(ops)} operations, the reference {vm.opos}: {ops[vm.opos:]!r}", scenario=scen)
+            V.check(ex, "no operation beyond the reference's", False, assumed, detail=f"the VM performed {len(ops)} operations, the reference {vm.opos}: {ops[vm.opos:]!r}", scenario=scen, prefer=pref)
             continue
         if out[0] == "ok":
             V.witness("value")
             okv = ex.adt_fields(ret, 0)[0] if isinstance(ret.discr, int) and ret.discr == 0 else None
             V.check(ex, "run yields the reference's value", z3.BoolVal(False) if okv is None else matches(ex, okv, out[1]), assumed,
-                    detail=lambda: f"reference: Ok({out[1]!r}); VM: {ret!r}", scenario=scen)
+                    detail=lambda: f"reference: Ok({out[1]!r}); VM: {ret!r}", scenario=scen, prefer=pref)
             # what is left below the result must be what the reference left
             left = final_stack(ex)
             if left is not None:
                 want = vm.stack
                 same = len(left) == len(want)
-                V.check(ex, "operand stack below the result", same, assumed, detail=lambda: f"VM left {left!r}, reference {want!r}", scenario=scen)
+                V.check(ex, "operand stack below the result", same, assumed, detail=lambda: f"VM left {left!r}, reference {want!r}", scenario=scen, prefer=pref)
         else:
             V.witness("error:" + str(out[1] or "propagated"))
             is_err = isinstance(ret.discr, int) and ret.discr == 1
             if not is_err:
-                V.check(ex, "run fails like the reference", False, assumed, detail=lambda: f"reference: Err({out[1] or 'same as operand'}); VM: {ret!r}", scenario=scen)
+                V.check(ex, "run fails like the reference", False, assumed, detail=lambda: f"reference: Err({out[1] or 'same as operand'}); VM: {ret!r}", scenario=scen, prefer=pref)
                 continue
             e = ex.adt_fields(ret, 1)[0]
             if out[2] is not None:
-                V.check(ex, "run fails with the operand's own error", e.vid == out[2], assumed, detail=lambda: f"VM: {ret!r}", scenario=scen)
+                V.check(ex, "run fails with the operand's own error", e.vid == out[2], assumed, detail=lambda: f"VM: {ret!r}", scenario=scen, prefer=pref)
             elif out[1] is not None:
-                V.check(ex, f"run fails with a {out[1]} error", is_variant(ex, e, out[1]), assumed, detail=lambda: f"VM: {ret!r}", scenario=scen)
+                V.check(ex, f"run fails with a {out[1]} error", is_variant(ex, e, out[1]), assumed, detail=lambda: f"VM: {ret!r}", scenario=scen, prefer=pref)
             else:
-                V.check(ex, "run fails", True, assumed, scenario=scen)
+                V.check(ex, "run fails", True, assumed, scenario=scen, prefer=pref)
         # the depth counter is released on every exit
         d0 = ex.notes["depth0"]
         cur = ex.notes["interp"].fields[2].fields[0].fields[0]
         live = ex.read(ex.notes["interp_ref"].root, ())
         cur = live.fields[2].fields[0].fields[0]
-        V.check(ex, "call-depth counter restored on exit", cur.bv == d0.bv, assumed, detail=lambda: f"depth on exit {cur!r}, on entry {d0!r}", scenario=scen)
+        V.check(ex, "call-depth counter restored on exit", cur.bv == d0.bv, assumed, detail=lambda: f"depth on exit {cur!r}, on entry {d0!r}", scenario=scen, prefer=pref)
 
 
 TARGETS = []
